@@ -1,2 +1,29 @@
-(** C16 *)
-From Coq Require Import List.
+(** C16 — error recovery.
+    Proved here: an input derivable without `!` is parsed without any recovery -- the run returns
+    exactly its derivation tree, which contains no error node -- for every validated table, with or
+    without recovery enabled.
+    Not proved yet (partial): well-formedness of recovered trees and the token accounting (subsequence,
+    coverage by exactly one error span, ordered disjoint spans, dropped lists in order).  The check
+    decides those clauses on every explored input directly on the implementation's output, and ties
+    the recovery model (LR/Driver.v error_recovery) to Parser::error_recovery by in-Coq evaluation. *)
+From Coq Require Import List ZArith.
+From LV Require Import LR.Driver LR.Validator LR.Soundness LR.Completeness LR.Main.
+Import ListNotations.
+
+Theorem C16_sentences_need_no_recovery : forall A C, valid A C = true ->
+  forall t, wfp A t (Nt (start_nt A)) ->
+  exists n, forall fuel, n <= fuel -> exists s, drive A no_fail fuel (map IOk (yield t)) = (ROk t, s).
+Proof. exact parse_ok_complete. Qed.
+Print Assumptions C16_sentences_need_no_recovery.
+
+(* a derivation tree without `!` has no error node *)
+Theorem C16_derivation_has_no_error_node : forall A t X, wfp A t X -> pure t.
+Proof.
+  intros A. induction t as [k|e d lo hi|p kids IH] using tree_ind'; intros X H; inversion H; subst.
+  - exact I.
+  - apply pure_node.
+    match goal with Hk : Forall2 (wfp A) kids _ |- _ => clear H; revert IH; induction Hk; intros IH; constructor end.
+    + inversion IH; subst; eauto.
+    + inversion IH; subst; eauto.
+Qed.
+Print Assumptions C16_derivation_has_no_error_node.
